@@ -4,6 +4,7 @@ import (
 	"flag"
 	"fmt"
 	"os"
+	"syscall"
 )
 
 type Lane func(cfg *Config, rep *Report)
@@ -30,7 +31,33 @@ func main() {
 	replay := flag.String("replay", "", "replay file")
 	work := flag.String("work", "", "scratch directory")
 	prop := flag.String("prop", "", "property id (projection)")
+	uid := flag.Int("uid", 0, "drop privileges to this uid/gid before running the lane (the work directory is chowned first)")
 	flag.Parse()
+	var outF *os.File
+	if *uid != 0 {
+		if *out != "-" && *out != "" {
+			// the report file is opened while still privileged
+			f, err := os.Create(*out)
+			if err != nil {
+				fmt.Fprintln(os.Stderr, err)
+				os.Exit(2)
+			}
+			outF = f
+		}
+		if *work != "" {
+			os.MkdirAll(*work, 0755)
+			os.Chown(*work, *uid, *uid)
+		}
+		syscall.Setgroups([]int{})
+		if err := syscall.Setgid(*uid); err != nil {
+			fmt.Fprintln(os.Stderr, "setgid:", err)
+			os.Exit(2)
+		}
+		if err := syscall.Setuid(*uid); err != nil {
+			fmt.Fprintln(os.Stderr, "setuid:", err)
+			os.Exit(2)
+		}
+	}
 	f, ok := lanes[*lane]
 	if !ok {
 		fmt.Fprintf(os.Stderr, "unknown lane %q\n", *lane)
@@ -39,6 +66,10 @@ func main() {
 	cfg := &Config{Seed: *seed, N: *n, Tier: *tier, Driver: *driver, Replay: *replay, Work: *work, Prop: *prop}
 	rep := NewReport(*lane, *seed)
 	f(cfg, rep)
+	if outF != nil {
+		*out = "-"
+		os.Stdout = outF
+	}
 	if err := rep.Write(*out); err != nil {
 		fmt.Fprintln(os.Stderr, err)
 		os.Exit(2)
